@@ -10,4 +10,4 @@ sed -e 's#joeqian10/neo3-gogogo/#joeqian10/neo3-gogogo-legacy/#' \
     -e 's#^// NOTE: neo3legacy.go is generated.*#// GENERATED from neo3.go by gen_neo3legacy.sh. Do not edit.#' \
     -e 's#^// same code over two versions.*##' \
     neo3.go > neo3legacy.go
-gofmt -l neo3legacy.go >/dev/null
+gofmt -w neo3legacy.go
